@@ -190,7 +190,7 @@ CHECKS = {
         "parsed statement is an executable Coq function over those statements (Model/Schema.v: constraints in textual order, rowid alias rule, merging of redundant UNIQUE / PRIMARY KEY, "
         "autoindex numbering, the late INTEGER PRIMARY KEY index of WITHOUT ROWID tables, DEFAULT with column affinity), proved for every statement value: SQLite's redundancy relation is an "
         "equivalence (C10_redundancy_is_equivalence); a WITHOUT ROWID table has no rowid alias, a rowid table no primary key column list, constraint indexes are pairwise non-redundant "
-        "(C10_create_table_invariants). Agreement with SQLite is decided against the real thing on every run: grammar-generated definitions (constraints in any order, duplicated / "
+        "(C10_create_table_invariants); the automatic indexes are named sqlite_autoindex_<table>_<k> with k >= 1 strictly increasing along the list - no number twice, none backwards, whatever is merged, skipped or built late - and a rowid table's primary key index is one of them (C10_autoindex_numbering); a WITHOUT ROWID key keeps each (name, collation) once, represents every written column and invents none (C10_primary_key_columns_once). Agreement with SQLite is decided against the real thing on every run: grammar-generated definitions (constraints in any order, duplicated / "
         "overlapping / named, quoted identifiers, COLLATE, ASC/DESC, WITHOUT ROWID, DEFAULT forms, expression and partial indexes) are executed by SQLite and what it accepts is read through "
         "sqlittle and compared with PRAGMA table_xinfo / index_list / index_xinfo and a behavioural rowid-alias test; and the same definitions - sqlite_master's texts, tokenized by the "
         "implementation, parsed by the translated parser, interpreted by Model/Schema.v - must give db.Schema()'s answer (columns, defaults, alias, NOT NULL, collations, every index).",
